@@ -376,6 +376,8 @@ def run_property(prop, module, theorems, tier, seed, nquick, nthorough, feature_
     rnd = core.rng(seed, prop)
     res = core.Result(prop)
     res.obl = core.check_obligations(prop, module, theorems, extra_vo=['theories/Trace/Spec.vo'])
+    if tier == 'thorough' and not res.obl['failures']:
+        core.thorough_coqchk(res, module)
     impl = core.build_impl()
     n = nquick if tier == 'quick' else nthorough
     programs = gen_programs(rnd, n, feature_sets, threads=threads, ticks=ticks)
